@@ -9,8 +9,8 @@
 #include "vsched.h"
 
 // ---- scenario rows ---------------------------------------------------------------------------------
-enum { F_2BLK, F_3BLK, F_BADCHECK_LAST, F_BAD_FIRST, F_TRUNC, F_UNSIZED_MID, F_EMPTY_MID, F_BADHDR, F_BADINDEX, F_BCJ_BAD, F_2STREAMS, F_BIGBLK, F_BAD_MID3, F_UNSUP_2ND, F_INITFAIL_3RD, F_4TRUNC, F_N };
-static const char *FN[] = { "2blk", "3blk", "badcheck-last", "bad-first", "trunc-mid", "unsized-mid", "empty-mid", "bad-blockheader", "bad-index", "bcj-bad-payload", "2streams+pad", "big-40k", "bad-mid-of-3", "unsupported-filter-2nd", "filter-init-fails-3rd", "4blk-trunc-in-4th" };
+enum { F_2BLK, F_3BLK, F_BADCHECK_LAST, F_BAD_FIRST, F_TRUNC, F_UNSIZED_MID, F_EMPTY_MID, F_BADHDR, F_BADINDEX, F_BCJ_BAD, F_2STREAMS, F_BIGBLK, F_BAD_MID3, F_UNSUP_2ND, F_INITFAIL_3RD, F_4TRUNC, F_BAD1_UNSIZED2, F_N };
+static const char *FN[] = { "2blk", "3blk", "badcheck-last", "bad-first", "trunc-mid", "unsized-mid", "empty-mid", "bad-blockheader", "bad-index", "bcj-bad-payload", "2streams+pad", "big-40k", "bad-mid-of-3", "unsupported-filter-2nd", "filter-init-fails-3rd", "4blk-trunc-in-4th", "bad-first-then-unsized" };
 typedef struct { int file, threads, inchunk, outchunk, timeout; uint32_t flags; uint64_t mlt, mls; int raise, early, reinit, probes; int bp, bt, bs; int tier; int mode; } row;	// mode: 0 normal, 1 truncation sweep over the second Block, 2 drain with no input after the Blocks were supplied
 #define NOLIM UINT64_MAX
 // tier: 0 = quick+thorough, 1 = thorough only.  bp/bt/bs = preemption / timeout / spurious bounds at quick; thorough adds 1 to bp for 2-thread rows.
@@ -68,6 +68,8 @@ static const row ROWS[] = {
 	{ F_3BLK,           2, 0,  3,  0, 0,                    NOLIM, NOLIM, 0,    0,    0,     0,     1, 0, 0, 0, 2 },	// all Blocks supplied, then LZMA_RUN calls without input until everything decodable has arrived
 	{ F_2BLK,           2, 7,  1,  0, 0,                    NOLIM, NOLIM, 0,    0,    0,     0,     1, 0, 0, 0, 2 },
 	{ F_3BLK,           3, 7,  1,  0, 0,                    NOLIM, NOLIM, 0,    0,    0,     0,     1, 0, 0, 1, 2 },
+	{ F_BAD1_UNSIZED2,  2, 0,  0,  0, 0,                    NOLIM, NOLIM, 0,    0,    0,     0,     2, 0, 0, 0 },	// a damaged Block decoded by a worker, directly followed by a Block that must be decoded in direct mode
+	{ F_BAD1_UNSIZED2,  2, 5,  3,  0, 0,                    NOLIM, NOLIM, 0,    0,    0,     0,     1, 0, 0, 0 },
 	{ F_4TRUNC,         2, 0,  1,  0, 0,                    NOLIM, NOLIM, 0,    0,    0,     0,     1, 0, 0, 0 },	// four Blocks on two threads, output read one byte at a time, input ends inside the fourth (its worker was used before)
 	{ F_4TRUNC,         2, 9,  2,  0, 0,                    NOLIM, NOLIM, 0,    0,    0,     0,     1, 0, 0, 0 },
 	{ F_4TRUNC,         2, 0,  1,  0, 0,                    NOLIM, NOLIM, 0,    0,    0,     0,     2, 0, 0, 1 },
@@ -93,18 +95,18 @@ static int build_file(int kind) {
 	switch (kind) {
 	case F_3BLK: case F_BAD_MID3: case F_INITFAIL_3RD: nb = 3; break;
 	case F_4TRUNC: nb = 4; break;
-	case F_UNSIZED_MID: case F_EMPTY_MID: nb = 3; break;
+	case F_UNSIZED_MID: case F_EMPTY_MID: case F_BAD1_UNSIZED2: nb = 3; break;
 	case F_BIGBLK: nb = 2; bsz = 40000 / 2 + 500; break;
 	}
 	for (int i = 0; i < nb; i++) b[i] = (mk_block){ plain + i * bsz, bsz, 1, kind == F_BCJ_BAD ? 2 : 0 };
-	if (kind == F_UNSIZED_MID) b[1].sized = 0;
+	if (kind == F_UNSIZED_MID || kind == F_BAD1_UNSIZED2) b[1].sized = 0;
 	if (kind == F_INITFAIL_3RD) b[2].chain = 3;
 	if (kind == F_EMPTY_MID) { b[1].len = 0; b[2].data = plain + bsz; }
 	plen = 0; for (int i = 0; i < nb; i++) plen += b[i].len;
 	clen = mk_xz(comp, sizeof comp, b, nb, kind == F_3BLK || kind == F_UNSIZED_MID ? LZMA_CHECK_SHA256 : LZMA_CHECK_CRC32, &lay); if (!clen) return -1;	// SHA-256 where three Blocks can be checked by different workers at the same time
 	switch (kind) {
 	case F_BADCHECK_LAST: comp[lay.off[nb - 1] + lay.total[nb - 1] - 2] ^= 1; break;
-	case F_BAD_FIRST: comp[lay.off[0] + lay.hdr[0] + 3] ^= 0x04; break;
+	case F_BAD_FIRST: case F_BAD1_UNSIZED2: comp[lay.off[0] + lay.hdr[0] + 3] ^= 0x04; break;
 	case F_BAD_MID3: comp[lay.off[1] + lay.hdr[1] + 3] ^= 0x04; break;
 	case F_TRUNC: clen = lay.off[1] + lay.total[1] / 2; break;
 	case F_4TRUNC: clen = lay.off[3] + lay.total[3] / 2; break;
